@@ -275,7 +275,9 @@ def directive_events():
     return ev
 
 
-SHAPES = ['assign', 'multi', 'compound', 'decorated', 'print', 'tripstr', 'classdef']
+SHAPES = ['assign', 'multi', 'compound', 'decorated', 'print', 'tripstr', 'classdef', 'decorated2', 'gapmulti', 'gapcompound',
+          'decorated3', 'gapclass']
+STYLES = ['new', 'new', 'old']
 
 
 def build_c04(events, shapes, default_skip=None, want_mode=None, rng=None, strings_with_directive=False):
@@ -288,8 +290,9 @@ def build_c04(events, shapes, default_skip=None, want_mode=None, rng=None, strin
             groups.append(gd.Group('block', -1, block=[d]))
             continue
         shape = shapes[i % len(shapes)]
-        g = gd.Group(shape, k, style='new', inline=[d] if where == 'inline' else None,
-                     inline_line=(i % 3))
+        g = gd.Group(shape, k, style=(rng.choice(STYLES) if rng is not None else STYLES[(i + len(events)) % 3]),
+                     inline=[d] if where == 'inline' else None,
+                     inline_line=((i + k) % 4))
         k += 1
         groups.append(g)
     if strings_with_directive:
